@@ -135,7 +135,10 @@ LitType(v) ==
 (* Propagation state: env maps a variable key to its partial type, bad is  *)
 (* the set of clashes met.  A variable key is the variable's name prefixed *)
 (* by the path of the aggregating expression / negation it is local to.    *)
-St0 == [env |-> ("$" :> TAny), bad |-> {}]
+(* out: a construct the typing rules above do not cover was met (the program *)
+(* is outside the fragment: no verdict).                                     *)
+St0 == [env |-> ("$" :> TAny), bad |-> {}, out |-> FALSE]
+Outside(st) == [st EXCEPT !.out = TRUE]
 Res(t, st) == [t |-> t, st |-> st]
 Clash(st, why) == [st EXCEPT !.bad = @ \cup {why}]
 FitC(ctx, t, want, st, why) ==
@@ -198,7 +201,7 @@ ChkAgg(op, e, want, ren, path, ctx, st) ==
              r == Chk(e, TR(("arg" :> (IF Tg(w) = "Bad" THEN TSing ELSE w)) @@ ("value" :> TAny) @@ NoFields),
                       ren, path, ctx, st)
          IN FitC(ctx, FieldOf(r.t, "arg"), want, r.st, op \o " gives its argument, which is not a list")
-    [] OTHER -> Res(want, Clash(st, "unknown aggregate " \o op))
+    [] OTHER -> Res(want, Outside(st))
 
 Chk(e, want, ren, path, ctx, st) ==
   CASE e.k = "var" ->
@@ -245,7 +248,7 @@ Chk(e, want, ren, path, ctx, st) ==
              s1 == ChkBody(e.body, ren2, Sub(path, 1), ctx, st)
          IN ChkAgg(e.op, e.e, want, ren2, Sub(path, 2), ctx, s1)
     [] e.k = "op" ->
-         LET op == e.op a == e.args IN
+         (LET op == e.op a == e.args IN
          CASE op \in {"+", "*", "-"} /\ Len(a) = 2 ->
                 LET r1 == Chk(a[1], TNum, ren, Sub(path, 1), ctx, st)
                     r2 == Chk(a[2], TNum, ren, Sub(path, 2), ctx, r1.st)
@@ -289,7 +292,8 @@ Chk(e, want, ren, path, ctx, st) ==
                     r1 == Chk(a[1], FieldOf(ww, "arg"), ren, Sub(path, 1), ctx, st)
                     r2 == Chk(a[2], FieldOf(ww, "value"), ren, Sub(path, 2), ctx, r1.st)
                 IN FitC(ctx, TR(("arg" :> r1.t) @@ ("value" :> r2.t) @@ NoFields), want, r2.st, "-> gives a record")
-           [] OTHER -> Res(want, Clash(st, "operator outside the fragment: " \o op))
+           [] OTHER -> Res(want, Outside(st)))
+    [] OTHER -> Res(want, Outside(st))
 
 ChkConj(c, ren, path, ctx, st) ==
   CASE c.k = "atom" -> ChkCall(c.p, c.args, 1, ren, path, ctx, st)
@@ -303,10 +307,11 @@ ChkConj(c, ren, path, ctx, st) ==
     [] c.k = "neg" ->
          ChkBody(c.body, Enter(ren, path, DVBody(c.body)), path, ctx, st)
     [] c.k = "or" ->
-         LET RECURSIVE Go(_, _)
-             Go(i, s) == IF i > Len(c.alts) THEN s
-                         ELSE Go(i + 1, ChkBody(c.alts[i], ren, Sub(path, i), ctx, s))
-         IN Go(1, st)
+         (LET RECURSIVE Go(_, _)
+              Go(i, s) == IF i > Len(c.alts) THEN s
+                          ELSE Go(i + 1, ChkBody(c.alts[i], ren, Sub(path, i), ctx, s))
+          IN Go(1, st))
+    [] OTHER -> Outside(st)
 
 ChkBody(body, ren, path, ctx, st) ==
   LET RECURSIVE Go(_, _)
@@ -335,7 +340,7 @@ SweepOnce(r, p, ctx, st) ==
 RECURSIVE SweepFix(_, _, _, _, _)
 SweepFix(r, p, ctx, st, n) ==
   LET s1 == SweepOnce(r, p, ctx, st)
-  IN IF s1.st.bad # {} \/ s1.st = st THEN s1
+  IN IF s1.st.bad # {} \/ s1.st.out \/ s1.st = st THEN s1
      ELSE IF n = 0 THEN [s1 EXCEPT !.st = Clash(s1.st, "no finite type")]
      ELSE SweepFix(r, p, ctx, s1.st, n - 1)
 
@@ -354,7 +359,7 @@ Dnf(body) ==
 
 RuleInfer1(r, p, ctx) ==
   LET s == SweepFix(r, p, ctx, St0, 12)
-  IN [head |-> s.head, bad |-> s.st.bad,
+  IN [head |-> s.head, bad |-> s.st.bad, out |-> s.st.out,
       ground |-> /\ \A k \in (DOMAIN s.st.env) \ {"$"} : IsGround(s.st.env[k])
                  /\ \A f \in (DOMAIN s.head) \ {"$"} : IsGround(s.head[f])]
 
@@ -369,6 +374,7 @@ RuleInfer(r, p, ctx) ==
       bad |-> UNION {parts[k].bad : k \in 1..Len(parts)}
               \cup {"alternatives give column " \o f \o " different types" :
                       f \in {g \in cols : Tg(head[g]) = "Bad"}},
+      out |-> \E k \in 1..Len(parts) : parts[k].out,
       ground |-> \A k \in 1..Len(parts) : parts[k].ground]
 
 -----------------------------------------------------------------------------
@@ -385,9 +391,9 @@ RuleIdx(prog) ==
 
 RoundOnce(prog, sig, dev) ==
   LET idx == RuleIdx(prog)
-      RECURSIVE Go(_, _, _, _)
-      Go(k, sg, bad, gr) ==
-        IF k > Len(idx) THEN [sig |-> sg, bad |-> bad, ground |-> gr]
+      RECURSIVE Go(_, _, _, _, _)
+      Go(k, sg, bad, gr, out) ==
+        IF k > Len(idx) THEN [sig |-> sg, bad |-> bad, ground |-> gr, out |-> out]
         ELSE LET pr == prog.preds[idx[k][1]]
                  r == pr.rules[idx[k][2]]
                  p == pr.name
@@ -402,20 +408,21 @@ RoundOnce(prog, sig, dev) ==
                  cols2 == [f \in DOMAIN cols |-> IF Tg(cols[f]) = "Bad" THEN sg[p][f] ELSE cols[f]]
              IN Go(k + 1, [sg EXCEPT ![p] = cols2],
                    bad \cup {p \o ": " \o b : b \in ri.bad \cup shape \cup clash},
-                   gr /\ ri.ground)
-  IN Go(1, sig, {}, TRUE)
+                   gr /\ ri.ground, out \/ ri.out)
+  IN Go(1, sig, {}, TRUE, FALSE)
 
 RECURSIVE Rounds(_, _, _, _)
 Rounds(prog, sig, dev, n) ==
   LET r == RoundOnce(prog, sig, dev)
-  IN IF r.bad # {} \/ r.sig = sig \/ n = 0 THEN r ELSE Rounds(prog, r.sig, dev, n - 1)
+  IN IF r.bad # {} \/ r.out \/ r.sig = sig \/ n = 0 THEN r ELSE Rounds(prog, r.sig, dev, n - 1)
 
-(* [ok, sig, bad, det]: det - every column and every variable ended ground, *)
-(* i.e. the program determines its types ("fully determined").             *)
+(* [ok, sig, bad, det, outside]: det - every column and every variable ended *)
+(* ground, i.e. the program determines its types ("fully determined");      *)
+(* outside - a construct without a typing rule was met (no verdict).        *)
 InferDev(prog, dev) ==
   LET r == Rounds(prog, Sig0(prog), dev, Len(prog.preds) + 3)
-  IN [ok |-> r.bad = {}, sig |-> r.sig, bad |-> r.bad,
-      det |-> r.bad = {} /\ r.ground
+  IN [ok |-> r.bad = {}, sig |-> r.sig, bad |-> r.bad, outside |-> r.out,
+      det |-> r.bad = {} /\ r.ground /\ ~r.out
               /\ \A p \in DOMAIN r.sig : \A f \in DOMAIN r.sig[p] : IsGround(r.sig[p][f])]
 
 Infer(prog) == InferDev(prog, {})
@@ -434,7 +441,7 @@ WellTypedUnder(prog, gamma) ==
        \A j \in 1..Len(pr.rules) :
           LET ri == RuleInfer(pr.rules[j], pr.name, [sig |-> gamma, dev |-> {}])
           IN /\ ri.bad = {}
-             /\ ri.ground
+             /\ ri.ground /\ ~ri.out
              /\ DOMAIN ri.head = DOMAIN gamma[pr.name]
              /\ \A f \in DOMAIN ri.head : ri.head[f] = gamma[pr.name][f]
 
